@@ -15,13 +15,15 @@ tvars == <<def, env, line, st, l, bad>>
 \* only what the specification states is compared: class, value, kind of stdout, help path, version tag
 Conforms(exp, got) ==
   /\ exp.class = got.class
-  /\ exp.class = "ok" => ToJson(exp.value) = ToJson(got.value)
+  \* got.vjson / got.pjson: canonical JSON text (sorted keys, no blanks) written by the trace recorder;
+  \* comparing texts avoids TLC's refusal to compare values of different types
+  /\ exp.class = "ok" => ToJson(exp.value) = got.vjson
   /\ exp.class = "stdout" =>
        /\ exp.kind = got.kind
-       /\ exp.kind = "help" => ToJson(exp.path) = ToJson(got.path)
+       /\ exp.kind = "help" => ToJson(exp.path) = got.pjson
        /\ exp.kind = "version" => got.vtext = "Version: VER-" \o exp.vtag
 
-TInit == /\ l = 1 /\ bad = 0 /\ def = DefSeq[1] /\ env = <<>> /\ line = <<>> /\ st = InitSt(DefSeq[1])
+TInit == /\ l = 1 /\ bad = 0 /\ def = DefSeq[1] /\ env = [x \in EnvVars(DefSeq[1]) |-> "UNSET"] /\ line = <<>> /\ st = InitSt(DefSeq[1])
 TNext == /\ l <= Len(Rec)
          /\ LET r == Rec[l]  d == DefById(r.def)  s == Run(InitSt(d), r.line)  o == Outcome(s, r.env) IN
             /\ def' = d /\ env' = r.env /\ line' = r.line /\ st' = s
